@@ -349,8 +349,8 @@ Dedupe(es, i, acc) ==
 (************************** the outcome of a parse *************************)
 (* Parse(case): the entry rule is evaluated at offset 0 after the first    *)
 (* rune has been advanced onto (outside any rule).                         *)
-(* InitState("x", v) and GlobalStore("g", v) set the initial stores *)
-XInit(C) == [X0 EXCEPT !.store = [Store0 EXCEPT !.x = C.opt.initx], !.g = C.opt.initg]
+(* InitState("x", v), InitState("cl", a Cloner holding v) and GlobalStore("g", v) set the initial stores *)
+XInit(C) == [X0 EXCEPT !.store = [Store0 EXCEPT !.x = C.opt.initx, !.cl = IF C.opt.initcl >= 0 THEN <<C.opt.initcl>> ELSE <<>>], !.g = C.opt.initg]
 RefRun(C) ==
   LET x1 == Advance(C, XInit(C), 0, "")
   IN EvRule(C, C.entry, x1, FALSE)
